@@ -6,6 +6,8 @@ worker the router names; commands sit in the queue of the worker they concern; n
 `EnvironmentError` has occurred.  Preserved by every micro-step, hence by every `sysStep`.
 -/
 namespace QM.Sys
+set_option linter.unusedSectionVars false
+variable [Cfg]
 
 abbrev Router := Pid → Option Wid
 
@@ -38,6 +40,7 @@ def EvtOK (router : Router) (plen : Nat) (w : Wid) : Evt → Prop
   | .await a ts => router a = some w ∧ ∀ t ∈ ts, Routed router t
   | .procResults a rs => Routed router a ∧ ∀ tr ∈ rs, router tr.1 = some w
   | .resultResp _ _ => True
+  | .exited _ => True
 
 theorem CmdOK.mono {r r' : Router} {plen : Nat} {known known' : Pid → Prop} {w : Wid} {c : Cmd}
     (he : Ext r r') (hk : ∀ p, known p → known' p) (h : CmdOK r plen known w c) : CmdOK r' plen known' w c := by
@@ -58,6 +61,7 @@ theorem EvtOK.mono {r r' : Router} {plen : Nat} {w : Wid} {e : Evt}
   | .await _ _, h => exact ⟨he _ _ h.1, fun t ht => he.routed (h.2 t ht)⟩
   | .procResults _ _, h => exact ⟨he.routed h.1, fun tr htr => he _ _ (h.2 tr htr)⟩
   | .resultResp _ _, _ => trivial
+  | .exited _, _ => trivial
 
 /-- Well-formed script table: every `spawn fn` names an existing script; script 0 exists. -/
 def ProgWF (prog : Prog) : Prop :=
@@ -113,6 +117,11 @@ theorem RInv.pushEvt {s : Sys} (h : RInv s) (w : Wid) (e : Evt)
   rcases mem_upd_append he' with h1 | ⟨rfl, rfl⟩
   · exact h.evts w' e' h1
   · exact he
+
+theorem RInv.noteExit {s : Sys} (h : RInv s) (i : Wid) (cur : Pid) (x : Proc) : RInv (s.noteExit i cur x) := by
+  rcases noteExit_eq s i cur x with e | e
+  · rw [e]; exact h
+  · rw [e]; exact h.pushEvt i _ trivial
 
 theorem mem_upd_tail {α : Type} {q : Nat → List α} {w w' : Nat} {c c' : α} {rest : List α}
     (hq : q w = c :: rest) (h : c' ∈ upd q w rest w') : c' ∈ q w' := by
@@ -261,6 +270,7 @@ theorem RInv.envStep1 {s : Sys} (h : RInv s) (combine) (w : Wid) : RInv (envStep
     | await a ts => exact h1.handleAwait he
     | procResults a rs => exact h1.handleProcResults combine he
     | resultResp req r => exact { h1 with }
+    | exited p => exact h1
 
 /-! ### worker side -/
 
@@ -511,7 +521,7 @@ theorem RInv.execStep {s : Sys} (h : RInv s) (i : Wid) (fuel : Nat) (ordQ : List
       have hxr : ∀ q ∈ x.regs, Routed s.env.router q := fun q hq => h.regs i cur x0 hx0 q (hreg0 ▸ hq)
       have hcur : s.env.router cur = some i := h.placed i cur (by unfold known; simp [hx0])
       split
-      · exact h.setWk_same i (hs1.trans (SameProcs.finish (w := { w0 with queue := rest }) hx rfl ordQ))
+      · exact (h.setWk_same i (hs1.trans (SameProcs.finish (w := { w0 with queue := rest }) hx rfl ordQ))).noteExit i cur x
       · have hsl := slice_ok h.progwf h.zero s.now cur fuel x hxr
         generalize slice s.prog s.now cur fuel x = r at hsl
         obtain ⟨x', out⟩ := r
@@ -532,8 +542,8 @@ theorem RInv.execStep {s : Sys} (h : RInv s) (i : Wid) (fuel : Nat) (ordQ : List
           have h1 := h.setWk_same i (hs2.trans (SameProcs.of_eq (w' := { w0 with queue := rest, procs := upd w0.procs cur (some x'), selecting := sinsert w0.selecting cur }) rfl rfl))
           exact h1.pushEvt i (.await cur ts) ⟨hcur, hsl.2⟩
         | blocked => exact h.setWk_same i (hs2.trans (SameProcs.of_eq rfl rfl))
-        | failed => exact h.setWk_same i (hs2.trans (SameProcs.finish (w := { w0 with queue := rest, procs := upd w0.procs cur (some x') }) hx2 rfl ordQ))
-        | done => exact h.setWk_same i (hs2.trans (SameProcs.finish (w := { w0 with queue := rest, procs := upd w0.procs cur (some x') }) hx2 rfl ordQ))
+        | failed => exact (h.setWk_same i (hs2.trans (SameProcs.finish (w := { w0 with queue := rest, procs := upd w0.procs cur (some x') }) hx2 rfl ordQ))).noteExit i cur x'
+        | done => exact (h.setWk_same i (hs2.trans (SameProcs.finish (w := { w0 with queue := rest, procs := upd w0.procs cur (some x') }) hx2 rfl ordQ))).noteExit i cur x'
 
 /-! ### worker commands -/
 
